@@ -235,6 +235,29 @@ func main() {
 			} else if !sameUpToNumbering(out, readDir(filepath.Join(base, u.pkg+"_insp"))) {
 				tgt += "+pkg-differs"
 			}
+			// regeneration into a KEPT destination (NoClean) after a same-size edit of the declarations: what is on disk afterwards
+			// must be what a fresh destination gets - the output is a function of the declarations, not of the destination's past
+			if variant := strings.Replace(strings.Replace(u.src, "\tF ", "\tG ", 1), "\tA ", "\tZ ", 1); variant != u.src && len(u.bl) == 0 && !u.stale {
+				kconf := func() *inspector.Config { c := fconf(u.pkg + "_insk"); c.NoClean = true; return c }
+				must(os.WriteFile(filepath.Join(dir, "decl.go"), []byte(variant), 0644))
+				e1 := compile(kconf())
+				ex1 := writeXML(kconf(), "xmlk_"+u.pkg)
+				must(os.WriteFile(filepath.Join(dir, "decl.go"), []byte(u.src), 0644))
+				e2 := compile(kconf())
+				ex2 := writeXML(kconf(), "xmlk_"+u.pkg)
+				if e1 != nil || e2 != nil || !sameUpToNumbering(out, readDir(filepath.Join(base, u.pkg+"_insk"))) {
+					det += "+stale-src"
+				}
+				must(os.RemoveAll(filepath.Join(base, "xmlf_"+u.pkg)))
+				ex3 := writeXML(fconf("-"), "xmlf_"+u.pkg)
+				if ex1 != nil || ex2 != nil || ex3 != nil || !sameBytes(readDir(filepath.Join(base, "xmlf_"+u.pkg)), readDir(filepath.Join(base, "xmlk_"+u.pkg))) {
+					det += "+stale-xml"
+				}
+				det = strings.TrimPrefix(det, "ok+")
+				for _, d := range []string{u.pkg + "_insk", "xmlk_" + u.pkg, "xmlf_" + u.pkg} {
+					_ = os.RemoveAll(filepath.Join(base, d))
+				}
+			}
 			u.obs["det"], u.obs["tgt"] = det, strings.TrimPrefix(tgt, "ok+")
 			for _, d := range []string{"_ins2", "_insd", "_insp"} {
 				// what another target emitted differently is kept and compiled as well (C14 is about every target's output)
